@@ -14,7 +14,23 @@ Oracle.  Every case is judged three ways: Spec (ValidRequest / ValidResponse, de
 (octets written while CONNECTING, state, drop kind, onConnect/onOpen).  Where the model has an `escapes` outcome (a defect
 it mirrors) an implementation that instead fails the handshake cleanly is accepted (noted, no break).
 
-Mutation self-test (scratch copy, VERIF_REPO) -- see the table at the end of this docstring.
+Mutation self-test (scratch copy of /repo/src, `VERIF_REPO=/tmp/... ./check C07 --tier quick`), one edit each:
+
+  M1  wildcards2patterns without the trailing "$" (prefix match)        exit 1  server-opens-invalid:origin   (Origin http://good.com.evil.com)
+  M2  key length `!= 24` -> `< 24`                                       exit 1  server-opens-invalid:key      (25-character key)
+  M3  `if version not in self.versions` disabled                         exit 1  server-opens-invalid:version; interop-opens-unsupported-version
+  M4  Upgrade token check disabled                                       exit 1  server-opens-invalid:upgrade
+  M5  client: Sec-WebSocket-Accept comparison disabled                   exit 1  client-opens-invalid:accept
+  M6  client: `sp not in self.factory.protocols` disabled                exit 1  client-opens-invalid:protocol
+  M7  maxConnections `>` -> `>=`                                         exit 1  server-rejects-valid:fail503
+  M8  Host count check disabled                                          exit 1  server-opens-invalid:host
+  M9  accept digest over GUID+key instead of key+GUID                    exit 1  server-reply:accept; interop-fails:client
+  M10 parseHttpHeader `i > 0` -> `i >= 0`                                exit 1  correspondence break "string layer: parsehdr" (no property-level
+                                                                                 failing input exists: the verdict does not change)
+  M11 fragment check disabled                                            exit 1  server-opens-invalid:line     (GET /#frag)
+  M12 client: Upgrade compared as substring                              exit 1  client-opens-invalid:upgrade
+  H1  harmless rewrites (`not (len(rl) == 3)`, `key.endswith("==")`, `rl[0] == "GET"`, `not len(sl) >= 2`)   exit 0, silent
+Every exit 1 came with a replay file naming the concrete request/response, configuration, framework and chunking.
 """
 import json
 import os
@@ -321,6 +337,10 @@ def judge_srv(J, case, fw, chunks, obs, mline):
             "dataReceived" if fw == "twisted" else "data_received (loop exception handler)", obs["exc"], case["label"]), rp)
     oc = case["onconnect"]
     accepting = oc[0] in ("accept", "accept1")
+    ev = obs["events"]
+    if ("onOpen" in ev) != impl.startswith("open ") or ("onOpen" in ev and ev[:2] != ["onConnect", "onOpen"]):
+        J.violation("server-callbacks-inconsistent", "onConnect/onOpen callbacks %s do not fit the outcome %s [%s]" % (
+            ev, impl[:40], case["label"]), rp)
     if impl.startswith("open ") and spec != "1":
         J.violation("server-opens-invalid:" + why, "server completes the handshake for a request that is not valid (%s) [%s]" % (
             why, case["label"]), rp)
@@ -385,6 +405,10 @@ def judge_cli(J, case, fw, chunks, obs, mline):
     model = canon_model_cli(verdict)
     rp = replay_of("C", case, fw, chunks)
     J.res.count("cli:" + verdict.split(" ")[0])
+    ev = obs["events"]
+    if ("onOpen" in ev) != impl.startswith("open ") or ("onOpen" in ev and ev[:2] != ["onConnect", "onOpen"]):
+        J.violation("client-callbacks-inconsistent", "onConnect/onOpen callbacks %s do not fit the outcome %s [%s]" % (
+            ev, impl[:40], case["label"]), rp)
     if obs["exc"]:
         J.violation("client-escape:" + escape_site(obs["exc"]), "exception leaves %s: %s  [%s]" % (
             "dataReceived" if fw == "twisted" else "data_received (loop exception handler)", obs["exc"], case["label"]), rp)
